@@ -85,6 +85,19 @@ def runRealm : Str := L!"gno.land/e/g1qmz5w76sluld9ald6yjxyhtarpdlg3flfu75e2/run
 
 def proxyPath (target : Str) : Str := L!"gno.land/r/proxy/x" ++ hexStr target
 
+/-- committed expectations for the code-shape facts the theorems rely on
+    (harness/cmd/c13/facts.go extracts them from /repo's source on every run):
+    only chain/params and sys/params natives write through ExecContext.Params;
+    all five ExecContext literals of the vm keeper hand out NewSDKParams(vm.prmk, ctx);
+    the tm2 params handler accepts no message; every sys/params write native
+    runs assertSysParamsRealm, then prmkey. -/
+def factExpect : String → String
+  | "param-writers" => "writers=chain/params,sys/params"
+  | "exec-params" => "sdkparams=5 other=0"
+  | "params-handler" => "process=rejects-all"
+  | "gate-order" => "gated=7 ungated=0"
+  | _ => "err:badop"
+
 /-! ### state and ops -/
 
 structure St where
@@ -138,6 +151,7 @@ def updOf (op : String) : String :=
 def step (s : St) (t : List String) : St × String :=
   let bad := (s, "err:badop")
   match t with
+  | ["fact", name] => (s, factExpect name)
   | ["realm", p] =>
     match unhx p with
     | some p => (s, s!"userlib={boolStr (isUserlib p)} realm={boolStr (isRealmPath p)}")
